@@ -518,37 +518,40 @@ func specPreorderAll(roots []*Node, i int) []*Node {
 }
 
 // The user callback of Walk*: cbTrace records the nodes it has been shown, cbFailed that it has returned an
-// error (after which it must not be called again), cbLastErr the last value it returned.
+// error, cbLastErr the first error it returned, cbAfterFail that it has been called again after it had returned an
+// error (which the walks without the massive option never do: their `nomore` clauses; the massive walk stage, whose
+// workers go on with the next root after an error, is under contract for safety only).
 // Assumed of the callback: it does not modify the tree being walked.
 //@ ghost var cbTrace []*Node
 //@ ghost var cbFailed bool
 //@ ghost var cbLastErr error
+//@ ghost var cbAfterFail bool
 //@ protocol walkCallback(wn)
-//@   requires live [C05]: !cbFailed
 //@   requires node [C05]: wn != nil && wn.origin != nil
-//@   modifies cbTrace, cbFailed, cbLastErr
-//@   ensures rec: cbTrace == old(cbTrace) ++ seqof(wn.origin) && cbFailed == (result != nil) && cbLastErr == result
+//@   modifies cbTrace, cbFailed, cbLastErr, cbAfterFail
+//@   ensures rec: cbTrace == old(cbTrace) ++ seqof(wn.origin) && cbFailed == (old(cbFailed) || result != nil) && (!old(cbFailed) ==> cbLastErr == result) && (old(cbFailed) ==> cbLastErr == old(cbLastErr)) && cbAfterFail == (old(cbAfterFail) || old(cbFailed))
 
 //@ func gtree.defaultWalkerSimple.walkNode
 //@   param callback follows walkCallback
 //@   requires nn: current != nil
-//@   requires live: !cbFailed
-//@   modifies cbTrace, cbFailed, cbLastErr
+//@   modifies cbTrace, cbFailed, cbLastErr, cbAfterFail
 //@   decreases down(current)
-//@   ensures all [C05]: result == nil ==> !cbFailed && cbTrace == old(cbTrace) ++ specPreorder(current)
-//@   ensures stop [C05]: result != nil ==> cbFailed && result == cbLastErr
+//@   ensures all [C05]: !old(cbFailed) && result == nil ==> !cbFailed && cbTrace == old(cbTrace) ++ specPreorder(current)
+//@   ensures stop [C05]: !old(cbFailed) && result != nil ==> cbFailed && result == cbLastErr
+//@   ensures nomore [C05]: !old(cbFailed) ==> cbAfterFail == old(cbAfterFail)
 //@ loop gtree.defaultWalkerSimple.walkNode#1
-//@   invariant sofar: !cbFailed && cbTrace == old(cbTrace) ++ seqof(current) ++ specPreorderKids(current, $i)
+//@   invariant sofar: !old(cbFailed) ==> !cbFailed && cbAfterFail == old(cbAfterFail) && cbTrace == old(cbTrace) ++ seqof(current) ++ specPreorderKids(current, $i)
 
 //@ func gtree.defaultWalkerSimple.walk
 //@   param callback follows walkCallback
 //@   requires roots: forall k int :: {roots[k]} 0 <= k && k < len(roots) ==> roots[k] != nil
 //@   requires live: !cbFailed
-//@   modifies cbTrace, cbFailed, cbLastErr
+//@   modifies cbTrace, cbFailed, cbLastErr, cbAfterFail
 //@   ensures all [C05]: result == nil ==> !cbFailed && cbTrace == old(cbTrace) ++ specPreorderAll(roots, len(roots))
 //@   ensures stop [C05]: result != nil ==> cbFailed && result == cbLastErr
+//@   ensures nomore [C05]: cbAfterFail == old(cbAfterFail)
 //@ loop gtree.defaultWalkerSimple.walk#1
-//@   invariant sofar: !cbFailed && cbTrace == old(cbTrace) ++ specPreorderAll(roots, $i)
+//@   invariant sofar: !cbFailed && cbAfterFail == old(cbAfterFail) && cbTrace == old(cbTrace) ++ specPreorderAll(roots, $i)
 
 // ---- the iterator forms (WalkIterFromRoot): three nested producers, each consumed through iter.Pull2 by the next.
 // Every stream records what it yields in ghost variables (reset when a producer starts); the finish condition of each
@@ -701,11 +704,12 @@ func specPreorderAll(roots []*Node, i int) []*Node {
 //@   param callback follows walkCallback
 //@   requires ok: simpleTreeOK(t, cfg) && root != nil && root.hierarchy == 1
 //@   requires live: !cbFailed
-//@   modifies Node.brnch.value, Node.brnch.path, cbTrace, cbFailed, cbLastErr
+//@   modifies Node.brnch.value, Node.brnch.path, cbTrace, cbFailed, cbLastErr, cbAfterFail
 //@   ensures all [C05,C03]: result == nil ==> !cbFailed && cbTrace == old(cbTrace) ++ specPreorder(root)
 //@   ensures grown [C05]: cfg.encode == encodeDefault && (result == nil || cbFailed) ==> grown(cfg.lastNodeFormat, cfg.intermedialNodeFormat, root)
 //@   ensures stop [C05]: cbFailed ==> result == cbLastErr && result != nil
 //@   ensures nocb [C05]: !cbFailed && result != nil ==> cbTrace == old(cbTrace)
+//@   ensures nomore [C05]: cbAfterFail == old(cbAfterFail)
 
 // ---------------------------------------------------------------------------------------------
 // config.go, tree.go, tree_handler_programmably.go: entry points
@@ -944,21 +948,23 @@ func lemmaLastEncodePrefix(opts []Option, o Option, i int) {
 // The massive (pipeline) implementations are not under contract (C10, C11 are not applicable to this technique).
 //@ func gtree.treePipeline.outputProgrammably
 //@   requires ok: pipelineTreeOK(t, cfg) && root != nil && root.hierarchy == 1
-//@   modifies Node.brnch.value, Node.brnch.path, out, wfail, defaultGrowSpreaderSimple.w, defaultSpreaderSimple.w, counter.n, encTrace, encoders, spText, errSent
+//@   modifies Node.brnch.value, Node.brnch.path, out, wfail, defaultGrowSpreaderSimple.w, defaultSpreaderSimple.w, counter.n, encTrace, encoders, spText, errSent, errRecv
+//@   ensures reported [C14]: result == nil ==> errRecv == old(errRecv)
 //@   ensures dryfs [C09]: fsOps == old(fsOps) && fsFailed == old(fsFailed)
 //@   carries rootStream: rootChan
 //@ closure gtree.treePipeline.outputProgrammably#1
 //@   requires nn: root != nil && root.hierarchy == 1
 //@ func gtree.treePipeline.walkProgrammably
 //@   requires ok: pipelineTreeOK(t, cfg) && root != nil && root.hierarchy == 1
-//@   modifies Node.brnch.value, Node.brnch.path, cbTrace, cbFailed, cbLastErr, errSent
+//@   modifies Node.brnch.value, Node.brnch.path, cbTrace, cbFailed, cbLastErr, cbAfterFail, errSent, errRecv
+//@   ensures reported [C14]: result == nil ==> errRecv == old(errRecv)
 //@   param callback follows walkCallback
 //@   carries rootStream: rootChan
 //@ closure gtree.treePipeline.walkProgrammably#1
 //@   requires nn: root != nil && root.hierarchy == 1
 
 //@ contract fromRootOutput
-//@   modifies Node.brnch.value, Node.brnch.path, out, wfail, defaultGrowSpreaderSimple.w, defaultSpreaderSimple.w, counter.n, encTrace, encoders, lastConfig, spText, errSent
+//@   modifies Node.brnch.value, Node.brnch.path, out, wfail, defaultGrowSpreaderSimple.w, defaultSpreaderSimple.w, counter.n, encTrace, encoders, lastConfig, spText, errSent, errRecv
 //@   ghostset lastConfig := cfg
 //@   ensures nilnode [C03]: root == nil ==> result == ErrNilNode && out == old(out) && wfail == old(wfail)
 //@   ensures notroot [C03]: root != nil && root.hierarchy != 1 ==> result == ErrNotRoot && out == old(out) && wfail == old(wfail)
@@ -968,11 +974,11 @@ func lemmaLastEncodePrefix(opts []Option, o Option, i int) {
 //@ contract fromRootWalk
 //@   param callback follows walkCallback
 //@   requires live: !cbFailed
-//@   modifies Node.brnch.value, Node.brnch.path, cbTrace, cbFailed, cbLastErr, counter.n, lastConfig, errSent
+//@   modifies Node.brnch.value, Node.brnch.path, cbTrace, cbFailed, cbLastErr, cbAfterFail, counter.n, lastConfig, errSent, errRecv
 //@   ghostset lastConfig := cfg
 //@   ensures nilnode [C03]: root == nil ==> result == ErrNilNode && cbTrace == old(cbTrace)
 //@   ensures notroot [C03]: root != nil && root.hierarchy != 1 ==> result == ErrNotRoot && cbTrace == old(cbTrace)
-//@   ensures walk [C03,C05,C13,C12]: root != nil && root.hierarchy == 1 ==> (fresh(lastConfig) && (!lastConfig.massive ==> (result == nil ==> !cbFailed && cbTrace == old(cbTrace) ++ specPreorder(root)) && (cbFailed ==> result == cbLastErr && result != nil) && (lastConfig.encode == encodeDefault && (result == nil || cbFailed) ==> grown(lastConfig.lastNodeFormat, lastConfig.intermedialNodeFormat, root))))
+//@   ensures walk [C03,C05,C13,C12]: root != nil && root.hierarchy == 1 ==> (fresh(lastConfig) && (!lastConfig.massive ==> cbAfterFail == old(cbAfterFail) && (result == nil ==> !cbFailed && cbTrace == old(cbTrace) ++ specPreorder(root)) && (cbFailed ==> result == cbLastErr && result != nil) && (lastConfig.encode == encodeDefault && (result == nil || cbFailed) ==> grown(lastConfig.lastNodeFormat, lastConfig.intermedialNodeFormat, root))))
 //@ applies fromRootWalk to gtree.WalkFromRoot, gtree.WalkProgrammably
 
 // ---------------------------------------------------------------------------------------------
@@ -1068,10 +1074,11 @@ func allRootsT(rs []*Node) bool { return true }
 //@   param callback follows walkCallback
 //@   requires ok: simpleTreeOK(t, cfg)
 //@   requires live: !cbFailed
-//@   modifies Node.children, Node.parent, Node.brnch.value, Node.brnch.path, list.List.view, list.Element.backOf, counter.n, bufio.Scanner.pos, bufio.Scanner.failed, markdown.Parser.isSharpRoot, markdown.Parser.spaces, markdown.Parser.sep, cbTrace, cbFailed, cbLastErr, lastForest, lnNodes
+//@   modifies Node.children, Node.parent, Node.brnch.value, Node.brnch.path, list.List.view, list.Element.backOf, counter.n, bufio.Scanner.pos, bufio.Scanner.failed, markdown.Parser.isSharpRoot, markdown.Parser.spaces, markdown.Parser.sep, cbTrace, cbFailed, cbLastErr, cbAfterFail, lastForest, lnNodes
 //@   ghostset lastForest := roots
 //@   ensures all [C05]: result == nil ==> !cbFailed && (allRoots(lastForest) && cbTrace == old(cbTrace) ++ specPreorderAll(lastForest, len(lastForest)) && (cfg.encode == encodeDefault ==> (forall k int :: {lastForest[k]} 0 <= k && k < len(lastForest) ==> grown(cfg.lastNodeFormat, cfg.intermedialNodeFormat, lastForest[k]))))
 //@   ensures stop [C05]: cbFailed ==> result == cbLastErr && result != nil
+//@   ensures nomore [C05]: cbAfterFail == old(cbAfterFail)
 
 //@ lemma gtree.lemmaRawAllIsRenderAll
 //@   requires rng: 0 <= i && i <= len(roots)
@@ -1101,15 +1108,17 @@ func lemmaRawAllIsRenderAll(last, mid branchFormat, roots []*Node, i int) {
 
 //@ func gtree.treePipeline.output
 //@   requires ok: pipelineTreeOK(t, cfg)
-//@   modifies Node.children, Node.parent, Node.brnch.value, Node.brnch.path, list.List.view, list.Element.backOf, counter.n, bufio.Scanner.pos, bufio.Scanner.failed, markdown.Parser.isSharpRoot, markdown.Parser.spaces, markdown.Parser.sep, out, wfail, defaultSpreaderSimple.w, encTrace, encoders, lastForest, lnNodes, rsRoots, rsFailed, rsStopped, rsErr, gsRoots, gsFailed, gsStopped, gsErr, spRoots, spText, esFailed, errSent
+//@   modifies Node.children, Node.parent, Node.brnch.value, Node.brnch.path, list.List.view, list.Element.backOf, counter.n, bufio.Scanner.pos, bufio.Scanner.failed, markdown.Parser.isSharpRoot, markdown.Parser.spaces, markdown.Parser.sep, out, wfail, defaultSpreaderSimple.w, encTrace, encoders, lastForest, lnNodes, rsRoots, rsFailed, rsStopped, rsErr, gsRoots, gsFailed, gsStopped, gsErr, spRoots, spText, esFailed, errSent, errRecv
+//@   ensures reported [C14]: result == nil ==> errRecv == old(errRecv)
 //@   ensures dryfs [C09]: fsOps == old(fsOps) && fsFailed == old(fsFailed)
 //@ func gtree.treePipeline.walk
 //@   requires ok: pipelineTreeOK(t, cfg)
-//@   modifies Node.children, Node.parent, Node.brnch.value, Node.brnch.path, list.List.view, list.Element.backOf, counter.n, bufio.Scanner.pos, bufio.Scanner.failed, markdown.Parser.isSharpRoot, markdown.Parser.spaces, markdown.Parser.sep, cbTrace, cbFailed, cbLastErr, lastForest, lnNodes, errSent
+//@   modifies Node.children, Node.parent, Node.brnch.value, Node.brnch.path, list.List.view, list.Element.backOf, counter.n, bufio.Scanner.pos, bufio.Scanner.failed, markdown.Parser.isSharpRoot, markdown.Parser.spaces, markdown.Parser.sep, cbTrace, cbFailed, cbLastErr, cbAfterFail, lastForest, lnNodes, errSent, errRecv
+//@   ensures reported [C14]: result == nil ==> errRecv == old(errRecv)
 //@   param callback follows walkCallback
 
 //@ contract fromMarkdownOutput
-//@   modifies Node.children, Node.parent, Node.brnch.value, Node.brnch.path, list.List.view, list.Element.backOf, counter.n, bufio.Scanner.pos, bufio.Scanner.failed, markdown.Parser.isSharpRoot, markdown.Parser.spaces, markdown.Parser.sep, out, wfail, defaultSpreaderSimple.w, encTrace, encoders, libWriter, libFailed, libCalls, lastConfig, lastForest, lnNodes, rsRoots, rsFailed, rsStopped, rsErr, gsRoots, gsFailed, gsStopped, gsErr, spRoots, spText, esFailed, errSent
+//@   modifies Node.children, Node.parent, Node.brnch.value, Node.brnch.path, list.List.view, list.Element.backOf, counter.n, bufio.Scanner.pos, bufio.Scanner.failed, markdown.Parser.isSharpRoot, markdown.Parser.spaces, markdown.Parser.sep, out, wfail, defaultSpreaderSimple.w, encTrace, encoders, libWriter, libFailed, libCalls, lastConfig, lastForest, lnNodes, rsRoots, rsFailed, rsStopped, rsErr, gsRoots, gsFailed, gsStopped, gsErr, spRoots, spText, esFailed, errSent, errRecv
 //@   ghostset lastConfig := cfg
 //@   ghostset libWriter := w
 //@   ghostset libFailed := old(libFailed) || result != nil
@@ -1122,9 +1131,9 @@ func lemmaRawAllIsRenderAll(last, mid branchFormat, roots []*Node, i int) {
 //@ contract fromMarkdownWalk
 //@   param callback follows walkCallback
 //@   requires live: !cbFailed
-//@   modifies Node.children, Node.parent, Node.brnch.value, Node.brnch.path, list.List.view, list.Element.backOf, counter.n, bufio.Scanner.pos, bufio.Scanner.failed, markdown.Parser.isSharpRoot, markdown.Parser.spaces, markdown.Parser.sep, cbTrace, cbFailed, cbLastErr, lastConfig, lastForest, lnNodes, errSent
+//@   modifies Node.children, Node.parent, Node.brnch.value, Node.brnch.path, list.List.view, list.Element.backOf, counter.n, bufio.Scanner.pos, bufio.Scanner.failed, markdown.Parser.isSharpRoot, markdown.Parser.spaces, markdown.Parser.sep, cbTrace, cbFailed, cbLastErr, cbAfterFail, lastConfig, lastForest, lnNodes, errSent, errRecv
 //@   ghostset lastConfig := cfg
-//@   ensures walk [C05,C03,C12]: fresh(lastConfig) && (!lastConfig.massive ==> (result == nil ==> !cbFailed && (allRoots(lastForest) && cbTrace == old(cbTrace) ++ specPreorderAll(lastForest, len(lastForest)))) && (cbFailed ==> result == cbLastErr && result != nil))
+//@   ensures walk [C05,C03,C12]: fresh(lastConfig) && (!lastConfig.massive ==> cbAfterFail == old(cbAfterFail) && (result == nil ==> !cbFailed && (allRoots(lastForest) && cbTrace == old(cbTrace) ++ specPreorderAll(lastForest, len(lastForest)))) && (cbFailed ==> result == cbLastErr && result != nil))
 //@ applies fromMarkdownWalk to gtree.WalkFromMarkdown, gtree.Walk
 
 // ---------------------------------------------------------------------------------------------
@@ -1435,17 +1444,19 @@ func fsExistsAt(p string) bool { _, err := os.Stat(p); return !os.IsNotExist(err
 
 //@ func gtree.treePipeline.mkdir
 //@   requires ok: pipelineTreeOK(t, cfg)
-//@   modifies Node.children, Node.parent, Node.brnch.value, Node.brnch.path, list.List.view, list.Element.backOf, counter.n, bufio.Scanner.pos, bufio.Scanner.failed, markdown.Parser.isSharpRoot, markdown.Parser.spaces, markdown.Parser.sep, fsOps, fsFailed, defaultGrowerSimple.enabledValidation, lastForest, lnNodes, errSent
+//@   modifies Node.children, Node.parent, Node.brnch.value, Node.brnch.path, list.List.view, list.Element.backOf, counter.n, bufio.Scanner.pos, bufio.Scanner.failed, markdown.Parser.isSharpRoot, markdown.Parser.spaces, markdown.Parser.sep, fsOps, fsFailed, defaultGrowerSimple.enabledValidation, lastForest, lnNodes, errSent, errRecv
+//@   ensures reported [C14]: result == nil ==> errRecv == old(errRecv)
 //@ func gtree.treePipeline.mkdirProgrammably
 //@   requires ok: pipelineTreeOK(t, cfg) && root != nil && root.hierarchy == 1
-//@   modifies Node.brnch.value, Node.brnch.path, fsOps, fsFailed, defaultGrowerSimple.enabledValidation, out, wfail, counter.n, spText, errSent
+//@   modifies Node.brnch.value, Node.brnch.path, fsOps, fsFailed, defaultGrowerSimple.enabledValidation, out, wfail, counter.n, spText, errSent, errRecv
+//@   ensures reported [C14]: result == nil ==> errRecv == old(errRecv)
 //@   ensures dryrun [C09]: cfg.dryrun ==> fsOps == old(fsOps) && fsFailed == old(fsFailed)
 //@   carries rootStream: rootChan
 //@ closure gtree.treePipeline.mkdirProgrammably#1
 //@   requires nn: root != nil && root.hierarchy == 1
 
 //@ contract fromMarkdownMkdir
-//@   modifies Node.children, Node.parent, Node.brnch.value, Node.brnch.path, list.List.view, list.Element.backOf, counter.n, bufio.Scanner.pos, bufio.Scanner.failed, markdown.Parser.isSharpRoot, markdown.Parser.spaces, markdown.Parser.sep, fsOps, fsFailed, defaultGrowerSimple.enabledValidation, libFailed, libCalls, lastConfig, lastForest, lnNodes, errSent
+//@   modifies Node.children, Node.parent, Node.brnch.value, Node.brnch.path, list.List.view, list.Element.backOf, counter.n, bufio.Scanner.pos, bufio.Scanner.failed, markdown.Parser.isSharpRoot, markdown.Parser.spaces, markdown.Parser.sep, fsOps, fsFailed, defaultGrowerSimple.enabledValidation, libFailed, libCalls, lastConfig, lastForest, lnNodes, errSent, errRecv
 //@   ghostset lastConfig := cfg
 //@   ghostset libFailed := old(libFailed) || result != nil
 //@   ghostset libCalls := old(libCalls) + 1
@@ -1455,7 +1466,7 @@ func fsExistsAt(p string) bool { _, err := os.Stat(p); return !os.IsNotExist(err
 //@ applies fromMarkdownMkdir to gtree.MkdirFromMarkdown, gtree.Mkdir
 
 //@ contract fromRootMkdir
-//@   modifies Node.brnch.value, Node.brnch.path, fsOps, fsFailed, defaultGrowerSimple.enabledValidation, out, wfail, counter.n, lastConfig, spText, errSent
+//@   modifies Node.brnch.value, Node.brnch.path, fsOps, fsFailed, defaultGrowerSimple.enabledValidation, out, wfail, counter.n, lastConfig, spText, errSent, errRecv
 //@   ghostset lastConfig := cfg
 //@   ensures nilnode [C03]: root == nil ==> result == ErrNilNode && fsOps == old(fsOps)
 //@   ensures notroot [C03]: root != nil && root.hierarchy != 1 ==> result == ErrNotRoot && fsOps == old(fsOps)
@@ -1581,18 +1592,20 @@ func lemmaInBeforeContains(ks []string, x string, i int) {
 
 //@ func gtree.treePipeline.verify
 //@   requires ok: pipelineTreeOK(t, cfg)
-//@   modifies Node.children, Node.parent, Node.brnch.value, Node.brnch.path, list.List.view, list.Element.backOf, counter.n, bufio.Scanner.pos, bufio.Scanner.failed, markdown.Parser.isSharpRoot, markdown.Parser.spaces, markdown.Parser.sep, defaultGrowerSimple.enabledValidation, maps, lastForest, lnNodes, errSent
+//@   modifies Node.children, Node.parent, Node.brnch.value, Node.brnch.path, list.List.view, list.Element.backOf, counter.n, bufio.Scanner.pos, bufio.Scanner.failed, markdown.Parser.isSharpRoot, markdown.Parser.spaces, markdown.Parser.sep, defaultGrowerSimple.enabledValidation, maps, lastForest, lnNodes, errSent, errRecv
+//@   ensures reported [C14]: result == nil ==> errRecv == old(errRecv)
 //@   ensures fsframe [C08]: fsOps == old(fsOps) && fsFailed == old(fsFailed)
 //@ func gtree.treePipeline.verifyProgrammably
 //@   requires ok: pipelineTreeOK(t, cfg) && root != nil && root.hierarchy == 1
-//@   modifies Node.brnch.value, Node.brnch.path, defaultGrowerSimple.enabledValidation, maps, errSent
+//@   modifies Node.brnch.value, Node.brnch.path, defaultGrowerSimple.enabledValidation, maps, errSent, errRecv
+//@   ensures reported [C14]: result == nil ==> errRecv == old(errRecv)
 //@   ensures fsframe [C08]: fsOps == old(fsOps) && fsFailed == old(fsFailed)
 //@   carries rootStream: rootChan
 //@ closure gtree.treePipeline.verifyProgrammably#1
 //@   requires nn: root != nil && root.hierarchy == 1
 
 //@ contract fromMarkdownVerify
-//@   modifies Node.children, Node.parent, Node.brnch.value, Node.brnch.path, list.List.view, list.Element.backOf, counter.n, bufio.Scanner.pos, bufio.Scanner.failed, markdown.Parser.isSharpRoot, markdown.Parser.spaces, markdown.Parser.sep, defaultGrowerSimple.enabledValidation, maps, libFailed, libCalls, lastConfig, lastForest, lnNodes, errSent
+//@   modifies Node.children, Node.parent, Node.brnch.value, Node.brnch.path, list.List.view, list.Element.backOf, counter.n, bufio.Scanner.pos, bufio.Scanner.failed, markdown.Parser.isSharpRoot, markdown.Parser.spaces, markdown.Parser.sep, defaultGrowerSimple.enabledValidation, maps, libFailed, libCalls, lastConfig, lastForest, lnNodes, errSent, errRecv
 //@   ghostset lastConfig := cfg
 //@   ghostset libFailed := old(libFailed) || result != nil
 //@   ghostset libCalls := old(libCalls) + 1
@@ -1601,7 +1614,7 @@ func lemmaInBeforeContains(ks []string, x string, i int) {
 //@ applies fromMarkdownVerify to gtree.VerifyFromMarkdown, gtree.Verify
 
 //@ contract fromRootVerify
-//@   modifies Node.brnch.value, Node.brnch.path, defaultGrowerSimple.enabledValidation, maps, counter.n, lastConfig, errSent
+//@   modifies Node.brnch.value, Node.brnch.path, defaultGrowerSimple.enabledValidation, maps, counter.n, lastConfig, errSent, errRecv
 //@   ensures nilnode [C03]: root == nil ==> result == ErrNilNode
 //@   ensures notroot [C03]: root != nil && root.hierarchy != 1 ==> result == ErrNotRoot
 //@   ensures fsframe [C08,C12]: fsOps == old(fsOps) && fsFailed == old(fsFailed)
